@@ -92,7 +92,7 @@ pub fn scalar_c01(rng: &mut Rng, n: usize) -> (Vec<f64>, DataMeta) {
     }
     let outlier_at = if n > 0 { rng.usize(n) } else { 0 };
     let mut v: Vec<f64> = (0..n).map(|i| offset + spread * draw(rng, fam, i, outlier_at)).collect();
-    let order = rng.below(6) as u8;
+    let order = rng.below(9) as u8;
     reorder(rng, &mut v, order);
     for x in v.iter_mut() {
         if x.abs() < 1e-30 {
@@ -138,6 +138,39 @@ pub fn reorder(rng: &mut Rng, v: &mut Vec<f64>, order: u8) {
             *v = out;
         }
         3 => rng.shuffle(v),
+        4 => {
+            // palindrome: the first half mirrored
+            let n = v.len();
+            for i in 0..n / 2 {
+                v[n - 1 - i] = v[i];
+            }
+        }
+        5 => {
+            // monotone, then constant
+            v.sort_by(|a, b| a.partial_cmp(b).unwrap());
+            let n = v.len();
+            if n >= 2 {
+                let k = n / 2;
+                let c = v[k];
+                for x in v[k..].iter_mut() {
+                    *x = c;
+                }
+            }
+        }
+        6 => {
+            // strictly alternating between the two halves of the sorted data
+            v.sort_by(|a, b| a.partial_cmp(b).unwrap());
+            let n = v.len();
+            let (lo, hi) = (v[..n / 2].to_vec(), v[n / 2..].to_vec());
+            let mut out = Vec::with_capacity(n);
+            for i in 0..hi.len() {
+                out.push(hi[i]);
+                if i < lo.len() {
+                    out.push(lo[i]);
+                }
+            }
+            *v = out;
+        }
         _ => {}
     }
 }
@@ -213,7 +246,7 @@ pub fn scalar_c17(rng: &mut Rng, n: usize) -> (Vec<f64>, DataMeta) {
             *x = cap.copysign(*x);
         }
     }
-    let order = rng.below(6) as u8;
+    let order = rng.below(9) as u8;
     reorder(rng, &mut v, order);
     (v, DataMeta { family: fam, spread: 0.0, offset: 0.0, order })
 }
